@@ -284,6 +284,8 @@ func TestMain(m *testing.M) {
 	if isFuzzWorker {
 		budgetOverride = 2500 * time.Millisecond
 		graceScale = 0.2
+		maxTries = 1
+		drainWait = 300 * time.Millisecond
 		code := m.Run()
 		writeWorkerCounts()
 		os.Exit(code)
